@@ -71,7 +71,16 @@ CHECKS = {
          "Pushes of a currently queued id are skipped (precondition).", "DESIGN.md §8 C19"),
 }
 
-PENDING = {}  # filled below: everything not in CHECKS yet
+# Properties not claimed under this technique (deterministic simulation with fault injection): pure
+# functions of their input.  Their auxiliary checks stay in the tree (./check C05|C16|C17 quick) as the
+# fault-free control configuration, but are not registered.
+NOT_APPLICABLE = {
+ "C05": "pure function of (order, incoming quantity): no schedule, clock, fault, crash point or history in the property, so there is nothing for a simulator to decide; the rule is used as the reference model inside the simulated histories of C01 C02 C04 C06 C08, and an unregistered auxiliary check (./check C05) sweeps its input grid",
+ "C16": "pure function of the value (print then parse): no schedule, clock, fault or interleaving; generating values and comparing is input generation, not simulation; kept only as the unregistered fault-free control configuration of the wire seam used by C09 and C18 (./check C16)",
+ "C17": "as C16 for the JSON codec: a pure function of the value, nothing to simulate; unregistered fault-free control (./check C17)",
+}
+for _p in NOT_APPLICABLE:
+    CHECKS.pop(_p, None)
 
 ALL = ["C%02d" % i for i in range(1, 20)]
 
@@ -91,7 +100,8 @@ def main():
             "level_note": note,
             "technique": tech,
         })
-    na = [{"property_id": p, "reason": "check under construction in this session; not claimed until it runs clean on the unchanged tree"} for p in ALL if p not in CHECKS]
+    na = [{"property_id": p, "reason": NOT_APPLICABLE[p]} for p in ALL if p in NOT_APPLICABLE]
+    assert all(p in CHECKS or p in NOT_APPLICABLE for p in ALL)
     m = {
         "version": 1,
         "setup_cmd": "./setup.sh",
